@@ -16,7 +16,9 @@ mod c08;
 mod c16;
 mod c18;
 mod c19b;
+mod c02;
 mod recdesc;
+mod recdesc_c;
 mod sim;
 mod simdemo;
 mod simop;
@@ -61,6 +63,9 @@ pub fn exec_line(line: &str) -> Option<String> {
     if op == "backoff" {
         return c19b::exec(op, &mut t);
     }
+    if op == "encode" || op == "escape" || op == "parse-escaped" {
+        return c02::exec(op, &mut t);
+    }
     None
 }
 
@@ -98,6 +103,7 @@ fn main() {
                     "C01" => c01::generate(&mut rng, &tier, &mut emit),
                     "C10" => c11::generate_c10(&mut rng, &tier, &mut emit),
                     "C11" => c11::generate_c11(&mut rng, &tier, &mut emit),
+                    "C02" => c02::generate(&mut rng, &tier, &mut emit),
                     "C16" => c16::generate(&mut rng, &tier, &mut emit),
                     "C19" => {
                         c19b::generate(&mut rng, &tier, &mut emit);
